@@ -2,6 +2,7 @@
 from __future__ import annotations
 
 import os
+import tempfile
 import random
 import signal
 
@@ -31,7 +32,7 @@ REQUIRED = {"discipline.only_parser_error": {"quick": 40000, "thorough": 3000000
             "fault.reported_at_injected_line": {"quick": 1500, "thorough": 100000},
             "mutation.only_parser_error": {"quick": 8000, "thorough": 500000},
             "reuse.parse_after_failure_same_as_fresh": {"quick": 200, "thorough": 15000}}
-REQUIRED_SEEN = {"free_text_shape": ["keyword_lookalike_without_colon"], "fault_kind": ["second_feature", "text_after_steps", "examples_outside_outline", "and_without_predecessor",
+REQUIRED_SEEN = {"faulty_document_form": ["lf", "crlf", "cr", "file_bom", "file_bom_language_comment", "file_cr", "file_bom_blank_first"], "free_text_shape": ["keyword_lookalike_without_colon"], "fault_kind": ["second_feature", "text_after_steps", "examples_outside_outline", "and_without_predecessor",
                                 "but_without_predecessor", "ragged_table_row", "malformed_tag", "second_background",
                                 "docstring_before_step", "table_before_step", "background_after_scenario", "tags_entry_malformed_tag",
                                 "tags_entry_tag_expected"],
@@ -341,10 +342,36 @@ def fault_injection(mon, P, rng, ndocs, i18n):
         for kind, at, newline, want_line in injections:
             new = src[:at - 1] + [newline] + src[at - 1:]
             t2 = "\n".join(new) + "\n"
-            k, val = call(P.parse_feature, t2, lang)
-            mon.case(("fault", kind, t2), True)
+            # the same faulty document in the forms a file can have: LF / CRLF / CR line ends, as text or read from a file,
+            # with a byte-order mark, with a language comment in front -- the fault is reported at the same (shifted) line
+            form = rng.choice(["lf", "lf", "lf", "crlf", "cr", "file_bom", "file_bom_language_comment", "file_cr", "file_bom_blank_first"])
+            shift = 0
+            if form in ("lf", "crlf", "cr"):
+                t_form = t2 if form == "lf" else t2.replace("\n", "\r\n" if form == "crlf" else "\r")
+                k, val = call(P.parse_feature, t_form, lang)
+            else:
+                body = t2
+                kwargs = {"language": lang}
+                if form == "file_bom_language_comment":
+                    body, shift, kwargs = "# language: %s\n" % lang + t2, 1, {}
+                elif form == "file_bom_blank_first":
+                    body, shift = "\n" + t2, 1
+                if form == "file_cr":
+                    data = body.replace("\n", "\r").encode("utf-8")
+                else:
+                    data = b"\xef\xbb\xbf" + body.encode("utf-8")
+                fd, path = tempfile.mkstemp(prefix="bvm-c05-", suffix=".feature")
+                try:
+                    with os.fdopen(fd, "wb") as fh:
+                        fh.write(data)
+                    k, val = call(P.parse_file, path, **kwargs)
+                finally:
+                    os.unlink(path)
+            want_line = want_line + shift
+            mon.case(("fault", kind, form, t2), True)
             mon.seen("fault_kind", kind)
-            W = lambda **kw: dict(fault=kind, injected_at=at, injected_line=newline, language=lang, text=t2, **kw)
+            mon.seen("faulty_document_form", form)
+            W = lambda **kw: dict(fault=kind, injected_at=at, injected_line=newline, language=lang, document_form=form, text=t2, **kw)
             if k == "watchdog":
                 mon.count("watchdog")
                 continue
